@@ -1,7 +1,7 @@
 //! C11: array::map!/from_fn!/map_!/from_fn_! on well-behaved closures (lengths 0..=4, Copy and
 //! drop-logging elements) against `<[T;N]>::map` / `core::array::from_fn`, and all ArrayBuilder
-//! histories (push / clone / build / drop incl. over- and under-filling) against a `Vec` with a
-//! capacity check.  Early-exit closures and collect_const! are generated programs (vlib/progs/c11.py).
+//! histories (push / clone / `clone_from` between two builders / build / drop incl. over- and
+//! under-filling) against a `Vec` with a capacity check.  Early-exit closures and collect_const! are generated programs (vlib/progs/c11.py).
 use crate::util::elog::{self, E};
 use crate::util::*;
 use konst::array::ArrayBuilder;
@@ -170,6 +170,7 @@ pub fn bld_hist<T: Tok, const N: usize>(ops: &[u8]) -> String {
     let mut fin = String::new();
     for &op in ops {
         let mut ok = true;
+        let mut src: Option<String> = None; // clone_from steps: the source's `as_slice` after the call
         match op {
             b'p' => {
                 let e = T::mk();
@@ -195,6 +196,30 @@ pub fn bld_hist<T: Tok, const N: usize>(ops: &[u8]) -> String {
                 ok = r.is_ok();
                 drop(r);
             }
+            b'A'..=b'H' | b'S'..=b'Z' => {
+                // a SECOND builder `t` of the same capacity gets m pushes (each caught), then
+                // `Clone::clone_from` between the two: A.. = `cur.clone_from(&t)`, `t` dropped;
+                // S.. = `t.clone_from(&cur)`, `cur` dropped, continue with `t`
+                let into_cur = op <= b'H';
+                let m = (if into_cur { op - b'A' } else { op - b'S' }) as usize;
+                let mut t: ArrayBuilder<T, N> = ArrayBuilder::new();
+                for _ in 0..m {
+                    let e = T::mk();
+                    let _ = catch_unwind(AssertUnwindSafe(|| t.push(e)));
+                }
+                let mut c = cur.take().unwrap();
+                if into_cur {
+                    ok = catch_unwind(AssertUnwindSafe(|| c.clone_from(&t))).is_ok();
+                    src = Some(T::slice(t.as_slice()));
+                    drop(t);
+                    cur = Some(c);
+                } else {
+                    ok = catch_unwind(AssertUnwindSafe(|| t.clone_from(&c))).is_ok();
+                    src = Some(T::slice(c.as_slice()));
+                    drop(c);
+                    cur = Some(t);
+                }
+            }
             b'b' => {
                 let b = cur.take().unwrap();
                 fin = match catch_unwind(AssertUnwindSafe(move || b.build())) {
@@ -214,6 +239,10 @@ pub fn bld_hist<T: Tok, const N: usize>(ops: &[u8]) -> String {
         let sl = T::slice(b.as_slice());
         let slm = T::slice(b.as_mut_slice());
         let sl = if sl == slm { sl } else { "MUTDIFF".to_string() };
+        let sl = match src {
+            Some(x) => format!("{},{}", sl, x),
+            None => sl,
+        };
         steps.push(format!("{}={},{},{},{}", op as char, if ok { "ok" } else { "panic" }, b.len(), crate::util::b(b.is_full()), sl));
     }
     drop(cur);
@@ -228,6 +257,7 @@ pub fn bld_hist_ref<T: Tok>(n: usize, ops: &[u8]) -> String {
     let mut fin = String::new();
     for &op in ops {
         let mut ok = true;
+        let mut src: Option<String> = None;
         match op {
             b'p' => {
                 let e = T::mk();
@@ -252,6 +282,30 @@ pub fn bld_hist_ref<T: Tok>(n: usize, ops: &[u8]) -> String {
                 ok = r.is_ok();
                 drop(r);
             }
+            b'A'..=b'H' | b'S'..=b'Z' => {
+                // `a.clone_from(&b)` is documented (`Clone::clone_from`) as equivalent to `a = b.clone()`:
+                // the clone is made, then the old value of `a` is dropped
+                let into_cur = op <= b'H';
+                let m = (if into_cur { op - b'A' } else { op - b'S' }) as usize;
+                let mut t: Vec<T> = Vec::new();
+                for _ in 0..m {
+                    let e = T::mk();
+                    if t.len() < n {
+                        t.push(e);
+                    } else {
+                        drop(e);
+                    }
+                }
+                if into_cur {
+                    cur = t.clone();
+                    src = Some(T::slice(&t));
+                    drop(t);
+                } else {
+                    t = cur.clone();
+                    src = Some(T::slice(&cur));
+                    cur = t; // the old `cur` is dropped here
+                }
+            }
             b'b' => {
                 fin = if cur.len() == n {
                     format!("b={}", T::built(std::mem::take(&mut cur)))
@@ -268,7 +322,11 @@ pub fn bld_hist_ref<T: Tok>(n: usize, ops: &[u8]) -> String {
             }
             _ => return "bad-op".to_string(),
         }
-        steps.push(format!("{}={},{},{},{}", op as char, if ok { "ok" } else { "panic" }, cur.len(), crate::util::b(cur.len() == n), T::slice(&cur)));
+        let sl = match src {
+            Some(x) => format!("{},{}", T::slice(&cur), x),
+            None => T::slice(&cur),
+        };
+        steps.push(format!("{}={},{},{},{}", op as char, if ok { "ok" } else { "panic" }, cur.len(), crate::util::b(cur.len() == n), sl));
     }
     drop(cur);
     format!("{}|{}|{}", if steps.is_empty() { "-".to_string() } else { steps.join(";") }, fin, T::ledger())
@@ -359,6 +417,89 @@ pub fn run_builder(tier: &str, out: &mut Out) {
             if h.len() <= 4 {
                 bld_row::<elog::Z>(n, &h, true, out);
             }
+        }
+    }
+    run_clone_from(tier, out);
+}
+
+/// `Clone::clone_from` between TWO builders (letters A.. = `cur.clone_from(&t)`, S.. = `t.clone_from(&cur)`,
+/// `t` a second builder holding m pushed values): the target may hold more, fewer or as many elements as
+/// the source, either may be empty or full.  Afterwards the target must be exactly a clone of the source
+/// (len / is_full / as_slice / build / drop) and every old element of the target must have been dropped
+/// exactly once; the source must be unchanged.
+fn run_clone_from(tier: &str, out: &mut Out) {
+    let is_cf = |c: &u8| c.is_ascii_uppercase();
+    let cf_letters = |ms: &[usize]| -> Vec<u8> {
+        let mut v = Vec::new();
+        for &m in ms {
+            v.push(b'A' + m as u8);
+        }
+        for &m in ms {
+            v.push(b'S' + m as u8);
+        }
+        v
+    };
+    // (1) ALL histories over {p, A0..An, S0..Sn} that contain a clone_from, every capacity
+    let depth = if tier == "thorough" { 4 } else if tier == "small" { 2 } else { 3 };
+    for n in 0..=4usize {
+        let mut alpha: Vec<u8> = b"p".to_vec();
+        alpha.extend(cf_letters(&(0..=n).collect::<Vec<_>>()));
+        for h in histories(&alpha, b"bd", depth) {
+            if !h.iter().any(is_cf) {
+                continue;
+            }
+            bld_row::<E>(n, &h, false, out);
+            if h.len() <= depth {
+                bld_row::<elog::Z>(n, &h, true, out);
+            }
+        }
+        // ... and mixed with plain clones
+        alpha.extend(b"ck");
+        for h in histories(&alpha, b"bd", depth) {
+            if !h.iter().any(is_cf) || !h.iter().any(|c| *c == b'c' || *c == b'k') {
+                continue;
+            }
+            bld_row::<E>(n, &h, false, out);
+        }
+    }
+    // (2) fill levels: i pushes, one clone_from with a second builder of m values (m = n + 1: one push into the
+    // second builder is rejected), j more pushes, build / drop — every i, m, j for capacities 0..=4, a selection
+    // on capacity 6
+    let small = tier == "small";
+    for n in [0usize, 1, 2, 3, 4, 6] {
+        let pick = |full: Vec<usize>, few: Vec<usize>| if n == 6 || small { few } else { full };
+        let is_ = pick((0..=n).collect(), vec![0, n / 2, n]);
+        let ms = pick((0..=n + 1).collect(), vec![0, 1, n, n + 1]);
+        let js = pick((0..=n).collect(), vec![0, n - n / 2, n]);
+        for &i in &is_ {
+            for &l in &cf_letters(&ms) {
+                for &j in &js {
+                    for t in [b'b', b'd'] {
+                        let mut h = vec![b'p'; i];
+                        h.push(l);
+                        h.extend(vec![b'p'; j]);
+                        h.push(t);
+                        bld_row::<E>(n, &h, false, out);
+                        bld_row::<elog::Z>(n, &h, true, out);
+                    }
+                }
+            }
+        }
+    }
+    // (3) together with a panicking element `Clone` in a later / earlier plain clone
+    let pdepth = if tier == "thorough" { 4 } else if small { 2 } else { 3 };
+    for n in 0..=4usize {
+        let mut alpha: Vec<u8> = b"p".to_vec();
+        for j in 0..=n.min(3) {
+            alpha.push(b'0' + j as u8);
+        }
+        alpha.extend(cf_letters(&if n == 0 { vec![0] } else { vec![0, n] }));
+        for h in histories(&alpha, b"bd", pdepth) {
+            if !h.iter().any(is_cf) || !h.iter().any(|c| c.is_ascii_digit()) {
+                continue;
+            }
+            bld_row::<E>(n, &h, false, out);
+            bld_row::<elog::Z>(n, &h, true, out);
         }
     }
 }
